@@ -11,7 +11,7 @@ TEXT = {
  "C19": ("Theorems C19_* (props/C19.v) prove classification, exclusivity of the predicates, accessors and losslessness for ALL strings and ALL socket addresses over the model of remote_addr.rs whose match arms are regenerated from the source on every run (obligation C19_gen_obligation); the model is additionally run against the implementation on generated strings with Rust's own parser as the oracle.",
          "Trusted: Coq kernel, translator gen.py (arm shapes), Rust's SocketAddr parser as the definition of 'parses as ip:port', extraction + harness.",
          "Coq proof over regenerated model + differential correspondence", "DESIGN.md 4 (C19)"),
- "C14": ("Theorems C14_* (props/C14.v) prove, generically in the bit layout and instantiated on the constants regenerated from resource_id.rs/poll.rs (obligation C14_gen_obligation): field round trip, that the accessors partition all 64 bits of every raw id, token round trip and waker separation, injectivity, and that no sequence of generate() calls over any generators issues an id twice or with the wrong adapter/kind. Model run against ResourceId::new / accessors / token conversions / generators in debug and release builds.",
+ "C14": ("Theorems C14_* (props/C14.v) prove, generically in the bit layout and instantiated on the constants regenerated from resource_id.rs/poll.rs (obligation C14_gen_obligation): field round trip, that the accessors partition all 64 bits of every raw id, token round trip and waker separation, injectivity, and that no sequence of generate() calls over any generators issues an id twice or with the wrong adapter/kind. Part 2 over the driver/registry model: C14_stale_endpoint_forever (after a connection ended, after ANY continuation of the history -- new connections on the same adapter included -- send/is_ready/remove on its id answer ResourceNotFound/None/false without reaching the adapter) and C14_events_carry_their_own_endpoint (every trace is accepted by the automaton that admits an event for an id only with the peer address that id was registered with). Model run against ResourceId::new / accessors / token conversions / generators in debug and release builds, and the real Driver against scripted mock-adapter histories with stale and fabricated endpoints.",
          "Trusted: Coq kernel, translator, usize=64 bits, fetch_add as a sequential counter; registry history part of the property is served by the driver model (part 2).",
          "Coq proof (bit-level, generic layout) + per-run vm_compute obligation + differential correspondence", "DESIGN.md 4 (C14)"),
  "C02": ("Theorem C02_decoder_chunking proves, by induction over the chunk list from a simulation lemma (one decode call = re-parsing buffer++chunk), that for EVERY message list and EVERY chunking of its frames (empty chunks included), in checked and wrapping arithmetic, the model of util/encoding.rs::Decoder returns exactly that list and buffers nothing; C02_feed_is_parse extends chunking independence to all byte streams; C02_prefix_roundtrip/_canonical prove the LEB128 prefix canonical and invertible for all n < 2^64. The model is run against the real Decoder (callbacks and stored_size after every chunk, panics caught) on exhaustive small streams x all cuts, boundary lengths x cut subsets, random cases, in debug and release.",
